@@ -254,6 +254,26 @@ def _table_case(draw):
     return spec
 
 
+@st.composite
+def _big_table_case(draw):
+    """tables of 30-160 rows with few distinct key values: size thresholds (fast paths) and heavy ties"""
+    n = draw(st.sampled_from([30, 64, 99, 100, 101, 128, 160]))
+    kind = draw(st.sampled_from(['int', 'float', 'str', 'mixed']))
+    pool = {'int': [0, 1, 2], 'float': [0.5, 1.5, 2.5], 'str': ['a', 'b', 'c'], 'mixed': [0, 1.0, 'a', None]}[kind]
+    k = draw(st.lists(st.sampled_from(pool), min_size=n, max_size=n))
+    j = draw(st.lists(st.integers(0, 1), min_size=n, max_size=n))
+    form = draw(st.sampled_from(['names', 'names', 'list', 'function', 'values']))
+    keys = draw(st.sampled_from([['k'], ['k'], ['k', 'j'], ['j', 'k']]))
+    spec = dict(cols=['k', 'j'], data={'k': k, 'j': j}, form=form, keys=keys)
+    if form == 'function':
+        spec['fn'] = draw(st.sampled_from(['neg', 'const', 'pair']))
+        spec['keys'] = keys[:1]
+    if form == 'values':
+        spec['orders'] = {c: draw(st.permutations(pool if c == 'k' else [0, 1]))[:draw(st.integers(1, 3))] for c in keys}
+        spec['orders'] = {c: [v for v in vs if v is not None] for c, vs in spec['orders'].items()}
+    return spec
+
+
 def _vkey(v):
     # hash-equality class used by a python dict: 1 == 1.0 == True
     if isinstance(v, (bool, int, float)):
@@ -384,4 +404,8 @@ SUBS = [
              'oracle: permutation of rows, keys non-decreasing under cmp, ties keep original order, idempotent, unlisted values last, operand untouched. '
              'non-trivial = >= 3 rows and (tied keys or NaN key)',
         floor=0.2, class_floors={'multi_key_not_alphabetical': 0.02, 'ties': 0.2}),
+    Sub('table_sort_large', lambda tier: _big_table_case(), run_table_sort, quick=250, thorough=1500,
+        rule='tables of 30-160 rows (incl. 99/100/101/128) whose key column has 3-4 distinct values, sorted by one or two columns, a function or value orders; same oracle as table_sort '
+             '(stability among the many ties is what matters here: size-dependent fast paths). non-trivial = ties present',
+        floor=0.5),
 ]
